@@ -33,9 +33,11 @@
    C40_history_exact.
    NOT proved (correspondence only): that the real renderer's batching, snapshots,
    temp ranges and lastCanonicalMapBoundaryBefore realise these operations with their
-   guards (in particular: the restart map lies inside the shared prefix and the first
-   indexed block is shared); queries racing the indexer (the model's search session runs
-   on a frozen index). *)
+   guards (the first indexed block is shared with the target chain; the restart map lies
+   inside the shared prefix — C40_restart_map_guard derives this guard from the Go
+   criterion "the stored last block of the previous map is canonical in the target view
+   and the map is not the last rendered one"); queries racing the indexer (the model's
+   search session runs on a frozen index). *)
 From GV Require Import Lib.Tactics Chain.LogIndex Chain.LogIndexProofs Chain.LogIndexSeq Chain.LogIndexQuery Chain.LogIndexLayout Chain.LogIndexExact Chain.LogIndexHistory.
 Local Open Scope N_scope.
 
@@ -265,6 +267,20 @@ Theorem C40_history_exact :
                                   (match last with Some l => l | None => head end) = Some ms.
 Proof. exact history_exact. Qed.
 Print Assumptions C40_history_exact.
+
+(* the restart map of a head rendering chosen by the criterion of
+   lastCanonicalMapBoundaryBefore (the stored last block B of map m0-1 lies in the prefix
+   of c blocks shared with the target chain, and m0-1 is not the last rendered map) meets
+   the guard of the head rendering step: all log values below m0*valuesPerMap come from
+   the shared prefix *)
+Theorem C40_restart_map_guard :
+  forall (P : params) chain lay e' ix m0 B c,
+  layout_blocks P 0 chain = (lay, e') -> chain <> [] -> ix_ptrs ix = map fst lay ->
+  0 < m0 -> last_block_of_map P ix (m0 - 1) = N.of_nat B -> (B < c)%nat -> (c <= length chain)%nat ->
+  m0 * vpm P + 2 <= e' ->
+  m0 * vpm P <= snd (layout_blocks P 0 (firstn c chain)).
+Proof. exact (fun P => restart_map_guard P idv idv (fun _ _ _ => 0) (fun _ _ => 0)). Qed.
+Print Assumptions C40_restart_map_guard.
 
 (* non-vacuity: a concrete parameter set and hash functions satisfying [col_high]
    (8 values per map, 2 hash bits, rows of length 2 so the third equal value overflows to
